@@ -128,6 +128,7 @@ func (workerPoolSelf *DefaultWorkerPool) trySpawn() {
 		expectedWorkerCount = workerPoolSelf.workerCount + 1
 	}
 	workerPoolSelf.lock.RUnlock()
+	verifPoint("pool.tryspawn.afterRUnlock")
 
 	if workerPoolSelf.workerCount < expectedWorkerCount {
 		for i := workerPoolSelf.workerCount; i < expectedWorkerCount; i++ {
@@ -196,6 +197,7 @@ func (workerPoolSelf *DefaultWorkerPool) generateWorkerWithMaximum(maximum int) 
 				workerPoolSelf.workerBusy--
 			}
 			workerPoolSelf.lock.Unlock()
+			verifPoint("pool.worker.exit.afterUnlock")
 
 			// This worker died on a panicking job: let the spawn loop look after the queued jobs
 			if panic != nil {
@@ -211,6 +213,7 @@ func (workerPoolSelf *DefaultWorkerPool) generateWorkerWithMaximum(maximum int) 
 			if workerPoolSelf.IsClosed() {
 				return
 			}
+			verifPoint("pool.worker.afterClosedCheck")
 
 			select {
 			case job := <-workerPoolSelf.jobQueue.GetChannel():
@@ -221,6 +224,7 @@ func (workerPoolSelf *DefaultWorkerPool) generateWorkerWithMaximum(maximum int) 
 					workerPoolSelf.lock.Unlock()
 
 					job()
+					verifPoint("pool.worker.afterJob")
 
 					workerPoolSelf.lock.Lock()
 					workerPoolSelf.workerBusy--
@@ -233,6 +237,7 @@ func (workerPoolSelf *DefaultWorkerPool) generateWorkerWithMaximum(maximum int) 
 				if workerCount > workerPoolSelf.workerSizeStandBy ||
 					workerCount > workerPoolSelf.workerSizeMaximum {
 					workerPoolSelf.lock.RUnlock()
+					verifPoint("pool.worker.expiry.decided")
 					break loopLabel
 				}
 				workerPoolSelf.lock.RUnlock()
@@ -325,6 +330,7 @@ func (workerPoolSelf *DefaultWorkerPool) Close() {
 		return
 	}
 	workerPoolSelf.isClosed.Set(true)
+	verifPoint("pool.close.afterFlag")
 
 	if workerPoolSelf.isJobQueueClosedWhenClose {
 		workerPoolSelf.jobQueue.Close()
@@ -337,6 +343,7 @@ func (workerPoolSelf *DefaultWorkerPool) Schedule(fn func()) error {
 		return ErrWorkerPoolIsClosed
 	}
 	defer workerPoolSelf.spawnWorkerCh.Offer(1)
+	verifPoint("pool.schedule.afterClosedCheck")
 
 	err := workerPoolSelf.jobQueue.Offer(fn)
 	if err == fpgo.ErrQueueIsFull {
